@@ -82,7 +82,7 @@ impl Prop for C20 {
             "'promptly' = run returns within 1 virtual second of the signal".into(),
             "a response is owed to a request whose last byte was sent at least 100 virtual ms before the signal on a connection that was open then; connections accepted after the flag is set may be dropped".into(),
             "a response that has started to arrive must arrive completely (the simulation keeps running the detached workers)".into(),
-            "threaded runtime only in this check".into(),
+            "this phase is the threaded runtime (mpsc shutdown receiver); the tokio runtime (CancellationToken) is exercised by the twin phase C20T of the same check".into(),
         ]
     }
     fn expected_counters(&self) -> Vec<&'static str> {
